@@ -17,7 +17,9 @@ import (
 	"strings"
 	"sync"
 	"sync/atomic"
+	"time"
 
+	"github.com/AdguardTeam/AdGuardDNS/internal/access"
 	"github.com/AdguardTeam/AdGuardDNS/internal/agd"
 	"github.com/AdguardTeam/AdGuardDNS/internal/profiledb"
 	"github.com/AdguardTeam/AdGuardDNS/internal/verifhook"
@@ -329,8 +331,9 @@ func (w *world) populate(rng *rand.Rand) {
 // A step of a history: changes to the world, then one synchronisation, then
 // lookups of every key.  Script steps are used by the directed scenarios.
 type seqStep struct {
-	Ops     func(w *world)
-	Restart bool // restart the database from its cache before the sync
+	Ops      func(w *world)
+	Restart  bool // restart the database from its cache before the sync
+	FailSync bool // the storage fails the synchronisation of this step
 }
 
 type seqCase struct {
@@ -339,7 +342,10 @@ type seqCase struct {
 	Mode   string // "before" | "after" | "mixed"
 	AllFul bool   // FullSyncIvl = 0
 	Future bool   // token base in the future: a restarted database continues incrementally
-	Script []seqStep
+	// RetryNever: FullSyncRetryIvl = 1000 h (a failed full synchronisation
+	// is followed by incremental ones); otherwise 0 (retried at once).
+	RetryNever bool
+	Script     []seqStep
 }
 
 type seqRun struct {
@@ -360,6 +366,64 @@ type seqRun struct {
 	ownerMoves int
 	fate       map[string]bool // mixed mode: point -> hold in this step
 	coin       *rand.Rand
+	w          *world
+	// accessOK remembers access managers already compared with a variant.
+	accessOK   map[accessSeen]bool
+	nAccessCmp int
+	// what the configuration (FullSyncIvl 0 or 1000 h, FullSyncRetryIvl 0 or
+	// 1000 h) says about the next refresh: see expectFull.
+	lastFullAt   string // "never" | "past" | "future" | "now"
+	fullFailed   bool
+	lastRespTime time.Time
+}
+
+type accessSeen struct {
+	a   access.Profile
+	idx int
+}
+
+// expectFull tells whether the configuration makes the next refresh a full
+// synchronisation.  The intervals are 0 or 1000 h and the time of the last
+// full synchronisation is never, "now", or a cache time decades in the past
+// or future, so no clock reading is involved.
+func (s *seqRun) expectFull() bool {
+	if s.fullFailed {
+		return !s.c.RetryNever
+	}
+	if s.c.AllFul {
+		return s.lastFullAt != "future"
+	}
+	return s.lastFullAt == "never" || s.lastFullAt == "past"
+}
+
+// checkAccess: the access settings of a looked-up profile must be those of
+// the latest synchronised version of the profile.
+func (s *seqRun) checkAccess(k lkey, p *agd.Profile, round string) {
+	idx, ok := s.w.accessLog[accessLogKey(p.ID, profVer(p))]
+	if !ok {
+		return
+	}
+	seen := accessSeen{p.Access, idx}
+	if s.accessOK[seen] {
+		return
+	}
+	s.r.Bucket("access_settings_compared", 1)
+	// The IsBlocked probes compile the name-rule engine of every new access
+	// manager: all directed scenarios, every 16th comparison elsewhere.
+	s.nAccessCmp++
+	withProbes := s.c.Script != nil || s.nAccessCmp%16 == 0
+	if withProbes {
+		s.r.Bucket("access_settings_probed", 1)
+	}
+	what := accessMismatch(p.Access, idx, withProbes)
+	if what == "" {
+		s.accessOK[seen] = true
+		return
+	}
+	s.ev("VIOLATION stale access settings: %s", what)
+	s.r.Violation("lookup:"+kindName[k.K]+":stale-access-settings",
+		fmt.Sprintf("%s: lookup %s returned profile %s@%s whose access settings are not those of the latest synchronised version (variant %d): %s", round, k, p.ID, profVer(p), idx, what),
+		s.witness(map[string]any{"key": k.String(), "access_variant": idx}))
 }
 
 func (s *seqRun) ev(f string, a ...any) { s.events = append(s.events, fmt.Sprintf(f, a...)) }
@@ -429,6 +493,9 @@ func (s *seqRun) lookupAll(db profiledb.Interface, m *model, round string, relea
 		}
 		cls := judge(k, e, a)
 		if cls == "" {
+			if a.Found && e.Found {
+				s.checkAccess(k, p, round)
+			}
 			continue
 		}
 		if cls != "answer-from-other-profile" {
@@ -510,7 +577,19 @@ func runSeq(r *vkit.Run, dir string, c seqCase) {
 	verifhook.Set(hc.cb)
 	defer verifhook.Set(nil)
 	s := &seqRun{r: r, c: c, hc: hc, dir: dir, held: map[string]bool{}, crossed: map[string]int{},
-		fate: map[string]bool{}, coin: r.Rand("seq-coin", c.Idx)}
+		fate: map[string]bool{}, coin: r.Rand("seq-coin", c.Idx), w: w, accessOK: map[accessSeen]bool{}, lastFullAt: "never"}
+	retry := time.Duration(0)
+	if c.RetryNever {
+		retry = ivlNever
+	}
+	// at most one failing synchronisation per random history (never the first)
+	failStep := -1
+	if rf := r.Rand("seq-fail", c.Idx); c.Script == nil && rf.IntN(3) == 0 {
+		failStep = 1 + rf.IntN(nSteps-1)
+	}
+	prevAccess := map[agd.ProfileID]int{}
+	deletionsInFailedFullWindow := 0
+	inFailedFullWindow := false
 	s.q = &quiesce{h: hc, baseline: stableGoroutines()}
 	defer func() {
 		hc.setPark(false)
@@ -518,13 +597,14 @@ func runSeq(r *vkit.Run, dir string, c seqCase) {
 		s.q.settle()
 	}()
 
-	db, err := newDB(st, cache, ivl)
+	db, err := newDBRetry(st, cache, ivl, retry)
 	if err != nil {
 		r.Inconclusive("profiledb.New: " + err.Error())
 		return
 	}
 	m := newModel()
 	lastFull := newModel()
+	var lastFullTime time.Time
 	haveCache := false
 	var opClasses []string
 
@@ -580,15 +660,24 @@ func runSeq(r *vkit.Run, dir string, c seqCase) {
 			// a restart happens at a quiescent point
 			releaseHeld("ran_before_restart")
 			s.crossed = map[string]int{}
-			db, err = newDB(st, cache, ivl)
+			db, err = newDBRetry(st, cache, ivl, retry)
 			if err != nil {
 				r.Inconclusive("profiledb.New (restart): " + err.Error())
 				return
 			}
 			m = lastFull.clone()
+			s.fullFailed, inFailedFullWindow = false, false
 			if len(m.profs) == 0 || len(m.devs) == 0 {
 				m = newModel()
+				s.lastFullAt, s.lastRespTime = "never", time.Time{}
+			} else {
+				s.lastRespTime = lastFullTime
+				s.lastFullAt = "past"
+				if c.Future {
+					s.lastFullAt = "future"
+				}
 			}
+			prevAccess = map[agd.ProfileID]int{}
 			s.ev("step %d RESTART from cache file (model = last full synchronisation)", step)
 			r.Bucket("restarts_continued", 1)
 			s.lookupAll(db, m, fmt.Sprintf("step %d after-restart", step), releaseNow)
@@ -605,19 +694,105 @@ func runSeq(r *vkit.Run, dir string, c seqCase) {
 		for _, k := range seqUniverse() {
 			before[k] = m.expect(k)
 		}
+		failing := step == failStep
+		if c.Script != nil {
+			failing = c.Script[step].FailSync
+		}
+		wantFull := s.expectFull()
+		if inFailedFullWindow || (failing && wantFull) {
+			for _, l := range w.log[logStart:] {
+				if strings.HasPrefix(l, "delete-profile") || strings.HasPrefix(l, "detach-device") {
+					deletionsInFailedFullWindow++
+				}
+			}
+		}
+		st.fail = failing
+		nReq := len(st.reqs)
 		err = db.Refresh(context.Background())
+		st.fail = false
+		// the request of this refresh against the protocol
+		if len(st.reqs) != nReq+1 {
+			s.violated = true
+			r.Violation("sync-request:count", fmt.Sprintf("one refresh made %d storage requests", len(st.reqs)-nReq), s.witness(nil))
+			break
+		}
+		got := st.reqs[nReq]
+		r.Bucket("sync_requests_checked", 1)
+		switch {
+		case !got.IsZero() && !got.Equal(s.lastRespTime):
+			s.violated = true
+			r.Violation("sync-request:unknown-sync-time",
+				fmt.Sprintf("step %d: the request carries sync time %s, the last successful response said %s", step, got.Format(time.RFC3339), s.lastRespTime.Format(time.RFC3339)), s.witness(nil))
+		case !wantFull && !got.Equal(s.lastRespTime):
+			// zero although a successful response has been received; the
+			// history goes on so that the lookups show the consequence
+			s.ev("step %d VIOLATION: incremental refresh sent a zero sync time", step)
+			r.Violation("sync-request:incremental-refresh-without-last-sync-time",
+				fmt.Sprintf("step %d: by configuration this refresh is not a full synchronisation (full-sync interval %v, retry interval %v, last full: %s, last full attempt failed: %v), "+
+					"but its request carries a zero sync time instead of %s, the sync time of the last successful response; a backend answers that with a full dump without deletion records, which an incremental refresh cannot apply",
+					step, ivl, retry, s.lastFullAt, s.fullFailed, s.lastRespTime.Format(time.RFC3339)), s.witness(nil))
+		case wantFull && !got.IsZero():
+			r.Bucket("sync_request_full_expected_but_incremental", 1)
+		}
+		if s.fullFailed && !wantFull {
+			r.Bucket("sync_requests_incremental_after_failed_full", 1)
+		}
+		if failing {
+			if err == nil {
+				s.violated = true
+				r.Violation("refresh:storage-failure-not-reported", "the storage failed but Refresh returned nil", s.witness(nil))
+				break
+			}
+			s.ev("step %d SYNC FAILED (storage error; expected kind: full=%v)", step, wantFull)
+			r.Bucket("syncs_failed", 1)
+			if wantFull {
+				s.fullFailed = true
+				inFailedFullWindow = true
+				r.Bucket("syncs_failed_full", 1)
+			}
+			if s.violated {
+				break
+			}
+			// a failed synchronisation changes nothing
+			releaseHeld("ran_after_next_sync")
+			s.lookupAll(db, m, fmt.Sprintf("step %d after-failed-sync", step), releaseNow)
+			continue
+		}
 		if err != nil {
 			s.violated = true
 			r.Violation("refresh:error", "synchronisation failed: "+err.Error(), s.witness(nil))
 			break
 		}
+		if s.violated {
+			break
+		}
+		// The model follows the protocol: a response to a zero sync time is a
+		// complete replacement, anything else an overlay.
 		m.apply(st.last, st.lastFu)
-		if st.lastFu {
+		s.lastRespTime = st.last.SyncTime
+		didFull := wantFull && st.lastFu
+		if didFull {
 			lastFull = m.clone()
+			lastFullTime = st.last.SyncTime
 			haveCache = true
+			s.lastFullAt, s.fullFailed = "now", false
 			r.Bucket("syncs_full", 1)
 		} else {
 			r.Bucket("syncs_incremental", 1)
+			if inFailedFullWindow && deletionsInFailedFullWindow > 0 {
+				r.Bucket("incremental_after_failed_full_with_deletion", 1)
+			}
+		}
+		if didFull {
+			inFailedFullWindow, deletionsInFailedFullWindow = false, 0
+			prevAccess = map[agd.ProfileID]int{}
+		}
+		for _, p := range st.last.Profiles {
+			idx := w.accessLog[accessLogKey(p.ID, profVer(p))]
+			if old, ok := prevAccess[p.ID]; ok && !didFull && !p.Deleted {
+				r.Bucket("access_change_in_incremental_sync:"+accessChangeClass(old, idx), 1)
+			}
+			prevAccess[p.ID] = idx
 		}
 		s.ev("step %d SYNC %s", step, describeResp(st.last, st.lastFu))
 		for _, k := range seqUniverse() {
@@ -639,7 +814,7 @@ func runSeq(r *vkit.Run, dir string, c seqCase) {
 			if s.violated {
 				break
 			}
-			if st.lastFu {
+			if didFull {
 				s.restartCheck(cache, ans, step, len(st.last.Profiles) == 0 || len(st.last.Devices) == 0)
 			}
 		}
@@ -741,15 +916,17 @@ func isProfileNotFound(err error) bool {
 // ---- directed scenarios: the four index kinds x both orders -----------------
 
 type directedScript struct {
-	name  string
-	steps []seqStep
+	name       string
+	steps      []seqStep
+	allFull    bool
+	retryNever bool
 }
 
 func directedScripts() []directedScript {
 	x, y := poolLinked[0], poolLinked[1]
 	dx, dy := poolDed[0], poolDed[1]
 	return []directedScript{
-		{"linked-ip-handover", []seqStep{
+		{name: "linked-ip-handover", steps: []seqStep{
 			{Ops: func(w *world) {
 				w.addProfile("p0", false)
 				w.addDevice("d0", "p0", x, nil, "")
@@ -759,7 +936,7 @@ func directedScripts() []directedScript {
 			{Ops: func(w *world) { w.setLinked("d1", x) }},
 			{Ops: func(w *world) { w.touchP("p0") }},
 		}},
-		{"linked-ip-handover-other-profile", []seqStep{
+		{name: "linked-ip-handover-other-profile", steps: []seqStep{
 			{Ops: func(w *world) {
 				w.addProfile("p0", false)
 				w.addProfile("p1", false)
@@ -770,7 +947,7 @@ func directedScripts() []directedScript {
 			{Ops: func(w *world) { w.setLinked("d1", x) }},
 			{Ops: func(w *world) { w.touchP("p0") }},
 		}},
-		{"dedicated-ip-handover", []seqStep{
+		{name: "dedicated-ip-handover", steps: []seqStep{
 			{Ops: func(w *world) {
 				w.addProfile("p0", false)
 				w.addDevice("d0", "p0", netip.Addr{}, []netip.Addr{dx}, "")
@@ -780,7 +957,7 @@ func directedScripts() []directedScript {
 			{Ops: func(w *world) { w.setDed("d1", []netip.Addr{dx}) }},
 			{Ops: func(w *world) { w.touchP("p0") }},
 		}},
-		{"human-id-handover", []seqStep{
+		{name: "human-id-handover", steps: []seqStep{
 			{Ops: func(w *world) {
 				w.addProfile("p0", true)
 				w.addDevice("d0", "p0", netip.Addr{}, nil, "h0")
@@ -790,7 +967,7 @@ func directedScripts() []directedScript {
 			{Ops: func(w *world) { w.setHid("d1", "h0") }},
 			{Ops: func(w *world) { w.touchP("p0") }},
 		}},
-		{"device-detach-reattach", []seqStep{
+		{name: "device-detach-reattach", steps: []seqStep{
 			{Ops: func(w *world) {
 				w.addProfile("p0", false)
 				w.addProfile("p1", false)
@@ -801,7 +978,7 @@ func directedScripts() []directedScript {
 			{Ops: func(w *world) { w.addDevice("d0", "p1", y, []netip.Addr{dy}, "h2") }},
 			{Ops: func(w *world) { w.touchP("p0") }},
 		}},
-		{"device-detach-reattach-same-profile", []seqStep{
+		{name: "device-detach-reattach-same-profile", steps: []seqStep{
 			{Ops: func(w *world) {
 				w.addProfile("p0", false)
 				w.addDevice("d0", "p0", x, nil, "")
@@ -810,7 +987,7 @@ func directedScripts() []directedScript {
 			{Ops: func(w *world) { w.detach("d0") }},
 			{Ops: func(w *world) { w.addDevice("d0", "p0", x, nil, "") }},
 		}},
-		{"profile-deleted-device-moves", []seqStep{
+		{name: "profile-deleted-device-moves", steps: []seqStep{
 			{Ops: func(w *world) {
 				w.addProfile("p0", false)
 				w.addProfile("p1", false)
@@ -821,7 +998,7 @@ func directedScripts() []directedScript {
 			{Ops: func(w *world) { w.addDevice("d0", "p1", x, []netip.Addr{dx}, "h1") }},
 			{Ops: func(w *world) { w.touchP("p1") }},
 		}},
-		{"swap-everything", []seqStep{
+		{name: "swap-everything", steps: []seqStep{
 			{Ops: func(w *world) {
 				w.addProfile("p0", false)
 				w.addDevice("d0", "p0", x, []netip.Addr{dx}, "h0")
@@ -830,7 +1007,7 @@ func directedScripts() []directedScript {
 			{Ops: func(w *world) { w.swapLinked("d0", "d1"); w.swapDed("d0", "d1"); w.swapHid("d0", "d1") }},
 			{Ops: func(w *world) { w.swapLinked("d0", "d1"); w.swapDed("d0", "d1"); w.swapHid("d0", "d1") }},
 		}},
-		{"move-with-human-id", []seqStep{
+		{name: "move-with-human-id", steps: []seqStep{
 			{Ops: func(w *world) {
 				w.addProfile("p0", false)
 				w.addProfile("p1", false)
@@ -840,7 +1017,7 @@ func directedScripts() []directedScript {
 			{Ops: func(w *world) { w.move("d0", "p1") }},
 			{Ops: func(w *world) { w.touchP("p0") }},
 		}},
-		{"restart-then-incremental", []seqStep{
+		{name: "restart-then-incremental", steps: []seqStep{
 			{Ops: func(w *world) {
 				w.addProfile("p0", false)
 				w.addDevice("d0", "p0", x, []netip.Addr{dx}, "h0")
@@ -848,6 +1025,106 @@ func directedScripts() []directedScript {
 			{Ops: func(w *world) { w.setLinked("d0", y) }},
 			{Ops: func(w *world) { w.addDevice("d1", "p0", x, nil, "") }, Restart: true},
 			{Ops: func(w *world) { w.touchP("p0") }},
+		}},
+		// failed synchronisations: the sync time of the last good response
+		// must survive, so that the deletions of the window arrive as a delta
+		{name: "failed-full-then-profile-deleted", allFull: true, retryNever: true, steps: []seqStep{
+			{Ops: func(w *world) {
+				w.addProfile("p0", false)
+				w.addProfile("p1", false)
+				w.addDevice("d0", "p0", x, []netip.Addr{dx}, "h0")
+				w.addDevice("d1", "p1", netip.Addr{}, nil, "")
+			}},
+			{Ops: func(w *world) { w.touchP("p1") }, FailSync: true},
+			{Ops: func(w *world) { w.deleteProfile("p0", false) }},
+			{Ops: func(w *world) { w.touchP("p1") }},
+		}},
+		{name: "failed-full-then-device-detached", allFull: true, retryNever: true, steps: []seqStep{
+			{Ops: func(w *world) {
+				w.addProfile("p0", false)
+				w.addDevice("d0", "p0", x, []netip.Addr{dx}, "h0")
+				w.addDevice("d1", "p0", y, nil, "")
+			}},
+			{Ops: func(w *world) { w.detach("d0") }, FailSync: true},
+			{Ops: func(w *world) { w.detach("d1") }},
+			{Ops: func(w *world) { w.addDevice("d2", "p0", x, nil, "h0") }},
+		}},
+		{name: "restart-failed-full-then-profile-deleted", retryNever: true, steps: []seqStep{
+			{Ops: func(w *world) {
+				w.addProfile("p0", false)
+				w.addProfile("p1", false)
+				w.addDevice("d0", "p0", x, []netip.Addr{dx}, "h0")
+				w.addDevice("d1", "p1", netip.Addr{}, nil, "")
+			}},
+			{Ops: func(w *world) { w.setLinked("d1", y) }},
+			{Ops: func(w *world) { w.touchP("p1") }, Restart: true, FailSync: true},
+			{Ops: func(w *world) { w.deleteProfile("p0", true) }},
+			{Ops: func(w *world) { w.touchP("p1") }},
+		}},
+		{name: "first-full-fails-then-profile-deleted", retryNever: true, steps: []seqStep{
+			{Ops: func(w *world) {
+				w.addProfile("p0", false)
+				w.addProfile("p1", false)
+				w.addDevice("d0", "p0", x, nil, "h0")
+				w.addDevice("d1", "p1", netip.Addr{}, nil, "")
+			}, FailSync: true},
+			{Ops: func(w *world) { w.touchP("p1") }},
+			{Ops: func(w *world) { w.deleteProfile("p0", false) }},
+			{Ops: func(w *world) { w.touchP("p1") }},
+		}},
+		{name: "failed-full-retried-at-once", allFull: true, steps: []seqStep{
+			{Ops: func(w *world) {
+				w.addProfile("p0", false)
+				w.addProfile("p1", false)
+				w.addDevice("d0", "p0", x, nil, "h0")
+				w.addDevice("d1", "p1", netip.Addr{}, nil, "")
+			}},
+			{Ops: func(w *world) { w.touchP("p1") }, FailSync: true},
+			{Ops: func(w *world) { w.deleteProfile("p0", false) }},
+			{Ops: func(w *world) { w.touchP("p1") }},
+		}},
+		// incremental synchronisations that change only one part of the
+		// access settings of a profile
+		{name: "access-subnets-only", steps: []seqStep{
+			{Ops: func(w *world) {
+				w.addProfile("p0", false)
+				w.addDevice("d0", "p0", x, []netip.Addr{dx}, "h0")
+				w.setAccess("p0", 1)
+			}},
+			{Ops: func(w *world) { w.setAccess("p0", 6) }},
+			{Ops: func(w *world) { w.setAccess("p0", 1) }},
+			{Ops: func(w *world) { w.setAccess("p0", 5) }},
+		}},
+		{name: "access-asns-only", steps: []seqStep{
+			{Ops: func(w *world) {
+				w.addProfile("p0", false)
+				w.addDevice("d0", "p0", x, []netip.Addr{dx}, "h0")
+				w.setAccess("p0", 2)
+			}},
+			{Ops: func(w *world) { w.setAccess("p0", 7) }},
+			{Ops: func(w *world) { w.setAccess("p0", 2) }},
+			{Ops: func(w *world) { w.setAccess("p0", 5) }},
+		}},
+		{name: "access-names-only", steps: []seqStep{
+			{Ops: func(w *world) {
+				w.addProfile("p0", false)
+				w.addDevice("d0", "p0", x, []netip.Addr{dx}, "h0")
+				w.setAccess("p0", 3)
+			}},
+			{Ops: func(w *world) { w.setAccess("p0", 8) }},
+			{Ops: func(w *world) { w.setAccess("p0", 3) }},
+			{Ops: func(w *world) { w.setAccess("p0", 5) }},
+		}},
+		{name: "access-empty-and-back", steps: []seqStep{
+			{Ops: func(w *world) {
+				w.addProfile("p0", false)
+				w.addDevice("d0", "p0", x, []netip.Addr{dx}, "h0")
+				w.setAccess("p0", 5)
+			}},
+			{Ops: func(w *world) { w.setAccess("p0", 1) }},
+			{Ops: func(w *world) { w.setAccess("p0", 2) }},
+			{Ops: func(w *world) { w.setAccess("p0", 0) }},
+			{Ops: func(w *world) { w.setAccess("p0", 6) }},
 		}},
 	}
 }
@@ -860,7 +1137,8 @@ func directedCases() (cs []seqCase) {
 				if future && s.name != "restart-then-incremental" {
 					continue
 				}
-				cs = append(cs, seqCase{Name: "directed/" + s.name, Idx: idx, Mode: mode, Future: future, Script: s.steps})
+				cs = append(cs, seqCase{Name: "directed/" + s.name, Idx: idx, Mode: mode, Future: future, Script: s.steps,
+					AllFul: s.allFull, RetryNever: s.retryNever})
 				idx++
 			}
 		}
@@ -882,7 +1160,7 @@ func sequential(r *vkit.Run, dir string) {
 				// no stale entries, hence no clean-ups, when every sync is full
 				continue
 			}
-			runSeq(r, dir, seqCase{Name: "random", Idx: i, Mode: mode, AllFul: allFull, Future: future})
+			runSeq(r, dir, seqCase{Name: "random", Idx: i, Mode: mode, AllFul: allFull, Future: future, RetryNever: i%2 == 0})
 		}
 	}
 }
@@ -898,7 +1176,11 @@ func naturalOrder(r *vkit.Run) {
 	reps := r.N(4, 40)
 	for si, sc := range directedScripts() {
 		for rep := 0; rep < reps; rep++ {
-			if sc.name == "restart-then-incremental" {
+			skip := sc.allFull
+			for _, st := range sc.steps {
+				skip = skip || st.Restart || st.FailSync
+			}
+			if skip {
 				continue
 			}
 			var clock atomic.Int64
